@@ -726,7 +726,7 @@ func (env *Env) call(n *ast.CallExpr) TV {
 		return TV{T: env.e.convert(v.T, v.Ty, t), Ty: t}
 	}
 	switch fname {
-	case "implies", "forall", "old", "atloop", "sameOwed", "sameOwn", "owedNonNeg", "nolocks", "samelocks", "sameWrExcept", "sameRdExcept", "sameelems", "strelems", "elemsbetween", "elemsnot":
+	case "implies", "forall", "old", "atloop", "sameOwed", "sameOwn", "owedNonNeg", "nolocks", "samelocks", "samelocksExcept", "sameWrExcept", "sameRdExcept", "sameelems", "strelems", "elemsbetween", "elemsnot":
 	default:
 		if _, isDef := env.e.p.cs.Defines[fname]; !isDef {
 			env = env.noSkolem()
@@ -861,6 +861,23 @@ func (env *Env) call(n *ast.CallExpr) TV {
 			return TV{T: eq(sel(c.Get(env.st, "$held"), sk), sel(c.Get(env.old, "$held"), sk)), Ty: boolT}
 		}
 		return TV{T: eq(c.Get(env.st, "$held"), c.Get(env.old, "$held")), Ty: boolT}
+	case "isnew": // isnew(r): reference r was allocated by this invocation (after entry)
+		v := env.eval(n.Args[0])
+		return TV{T: "(> " + v.T + " " + env.e.top(env.old) + ")", Ty: boolT}
+	case "samelocksExcept": // samelocksExcept(mu): every other mutex is held as at entry
+		env.e.declHeld()
+		a := env.evalAddr(n.Args[0])
+		if a == nil {
+			return env.fail("samelocksExcept: not a mutex lvalue: %s", exprString(n.Args[0]))
+		}
+		mu := env.e.muId(a)
+		if env.skolem {
+			sk := c.Fresh("sk.mu", "MuId")
+			return TV{T: implies(not(eq(sk, mu)), eq(sel(c.Get(env.st, "$held"), sk), sel(c.Get(env.old, "$held"), sk))), Ty: boolT}
+		}
+		c.nfresh++
+		bv := q(fmt.Sprintf("mu!%d", c.nfresh))
+		return TV{T: fmt.Sprintf("(forall ((%s MuId)) %s)", bv, implies(not(eq(bv, mu)), eq(sel(c.Get(env.st, "$held"), bv), sel(c.Get(env.old, "$held"), bv)))), Ty: boolT}
 	case "bound": // bound(x): interface value x was loaded from the file field of a fidRef
 		v := env.eval(n.Args[0])
 		if r, ok := env.e.prov[v.T]; ok {
